@@ -80,6 +80,9 @@ DEFDOCS = [
     ("5.7.2", "query Q @tag @skip(if: true) { a }"), ("5.7.2", "{ ...F } fragment F on Query @onlyq { a }"), ("5.7.3", "query Q @tag @tag { a }"),
     ("5.5.2.3", "{ ...F } fragment F on A { n }"), ("5.5.2.3", "{ node { ...F } } fragment F on C { x }"), ("5.5.2.3", "{ c { ...F } } fragment F on Node { id }"),
     ("5.5.2.3", "{ u { ...F } } fragment F on U { ...G } fragment G on C { x }"), ("5.5.2.3", "{ q { q { ...F } } } fragment F on B { flag }"),
+    ("5.2.3.1", "subscription S { ...F } fragment F on Subscription { t1 t2 }"), ("5.2.3.1", "fragment F on Subscription { t1 t2 } subscription S { ...F }"),
+    ("5.2.3.1", "subscription S { ...F } fragment F on Subscription { ...G } fragment G on Subscription { t1 x: t2 }"), ("5.2.3.1", "subscription S { ...F ...G } fragment G on Subscription { t2 } fragment F on Subscription { t1 }"),
+    ("5.2.3.1", "query Q { a } subscription S { ...F } fragment F on Subscription { t1 t2(n: 1) }"),
     ("5.1.1", None),
 ]
 F6_DOCS = {37, 38}       # variable defaults are not validated (known finding F6)
